@@ -13,9 +13,9 @@ import (
 )
 
 func init() {
-	reg(&core.RuleInfo{Name: "DEL-AUTH", Props: []string{"C05"}, Engine: "CFG", Floor: 1, Confirmed: 1,
+	reg(&core.RuleInfo{Name: "DEL-AUTH", Props: []string{"C05", "C04"}, Engine: "CFG", Floor: 1, Confirmed: 1,
 		Doc: "removal from the store is edge-dominated by the pubkey equality", Run: runDelAuth})
-	reg(&core.RuleInfo{Name: "REG-KEY", Props: []string{"C05"}, Engine: "PROV", Floor: 5, Confirmed: 9,
+	reg(&core.RuleInfo{Name: "REG-KEY", Props: []string{"C05"}, Engine: "PROV", Floor: 3, Confirmed: 9,
 		Doc: "registry / removal keys carry the Pubkey of an event, never a tag value", Run: runRegKey})
 	reg(&core.RuleInfo{Name: "REG-COUPD", Props: []string{"C05"}, Engine: "CFG", Floor: 3, Confirmed: 3,
 		Doc: "kind 5: register + delete-by-reference on insert; registry cleaned when the request leaves", Run: runRegCoupd})
@@ -51,6 +51,13 @@ func runDelAuth(c *core.Ctx) {
 			if (x == cand+".Pubkey" && strings.HasPrefix(y, "p:") && strings.HasSuffix(y, ".Pubkey")) ||
 				(y == cand+".Pubkey" && strings.HasPrefix(x, "p:") && strings.HasSuffix(x, ".Pubkey")) {
 				ok = true
+			}
+			// the requested author as a string parameter of its own (`delete(key, pubkey string)`)
+			if ki := a.delKeyParam(); ki != 0 {
+				req := "p:" + a.del.Params[3-ki].Name()
+				if (x == cand+".Pubkey" && y == req) || (y == cand+".Pubkey" && x == req) {
+					ok = true
+				}
 			}
 		}
 		c.Check(ok, nil, fname(c, a.del), "remove(evs)/author-check", P.Pos(d.Pos()),
@@ -296,10 +303,8 @@ func runKeyDom(c *core.Ctx) {
 			}
 		case *ssa.Lookup:
 			if strings.HasSuffix(o.Path(x.X), ".deleted") && !seenProbe[x] {
-				// the lookup inside the registry predicate itself is reported through its call
-				if len(o.Chain) > 0 && strings.Contains(calleeReturnPath(x.Parent()), ".deleted[") {
-					return
-				}
+				// (a lookup inside a registry predicate is listed too, in the caller's terms: the
+				// predicate may take the event and probe with several of its attributes)
 				seenProbe[x] = true
 				probeKeys = append(probeKeys, a.inEntryTerms(o.Path(x.Index)))
 			}
@@ -344,7 +349,7 @@ func runKeyDom(c *core.Ctx) {
 	var keys []string
 	raw, viaIndex := false, false
 	for _, o := range occCallsTo(delRef, a.del, a.stop) {
-		k := occArg(o, 1)
+		k := a.delArg(o)
 		keys = append(keys, k)
 		if strings.Contains(k, an.FuncFullName(a.keyFn)) && strings.Contains(k, ".idx[") && strings.Contains(k, fmt.Sprintf("What=const:%d", idConst)) {
 			viaIndex = true
